@@ -123,6 +123,8 @@ var props = map[string]*propDef{
 			"default build modelled as amd64/little-endian (unsafe slice views over byte-addressed memory); ColRawOf exists only in the default build and is outside",
 		}, baseAssumptions...),
 		Harnesses: []harnessDef{
+			// engine self-test: the bit-pattern encoding of IEEE comparisons against the hardware, on witness replays
+			{Name: "proto.VerifSelfFloatCmp", Witness: 40},
 			{Name: "proto.VerifC15GenLeaves", DualTags: "verif,purego", Quick: map[string]int{"maxrows": 2}, Thorough: map[string]int{"maxrows": 3}, Must: []string{"dual:encoded", "dual:written", "dual:decode-err", "dual:rows"}},
 			{Name: "proto.VerifC15BoolUUID", DualTags: "verif,purego", Quick: map[string]int{"maxrows": 2, "minprec": 3, "maxprec": 3}, Thorough: map[string]int{"maxrows": 3, "minprec": 3, "maxprec": 3}, Must: []string{"dual:encoded", "dual:written", "dual:decode-err", "dual:rows", "dual:row"}},
 		},
